@@ -204,13 +204,13 @@ assumed('str.split2', params={'self': 'str', 'sep': 'None', 'maxsplit': 'int'}, 
 
 from pyvc.api import REGISTRY
 c = REGISTRY['cfgparser.ZConfigParser.handle_define']
-c.ensures = [Clause('not define_err(old(self.defines.items), rest)', carries='C05', label='accepted-iff-DefineStep'),
+c.ensures = [Clause('not define_err(old(self.defines.items), rest)', carries='C05,C15', label='accepted-iff-DefineStep'),
              Clause('self.defines.items == updated(old(self.defines.items), define_name(rest), '
-                    'subst_spec(define_text(rest), old(self.defines.items))[1])', carries='C05',
+                    'subst_spec(define_text(rest), old(self.defines.items))[1])', carries='C05,C15',
                     label='namespace-updated-with-expanded-value')]
 c.raises = [Raise('ZConfig.ConfigurationError+', when='define_err(self.defines.items, rest)',
                   then=POS + [Clause('self.defines.items == old(self.defines.items)', carries='C05', label='unchanged')],
-                  carries='C05', label='rejected')]
+                  carries='C05,C15', label='rejected')]
 
 import spec.urls as SU
 spec_module(SU)
@@ -257,15 +257,15 @@ contract('cfgparser.ZConfigParser.start_section',
          asserts=[At("sec_ok(hdr_text(old(rest))) and args[0] == section and "
                      "args[1] == sec_type(hdr_text(old(rest))).lower() and "
                      "args[2] == lower_opt(sec_name(hdr_text(old(rest))))",
-                     call='self.context.startSection', carries='C03,C15', label='opens-lowercased-type-and-name'),
+                     call='self.context.startSection', carries='C03,C15,C17', label='opens-lowercased-type-and-name'),
                   At("old(rest)[-1:] == '/' and args[1] == sec_type(hdr_text(old(rest))).lower()",
-                     call='self.end_section', carries='C03,C15', label='empty-form-closes-the-section-it-opened')],
-         ensures=[Clause('sec_ok(hdr_text(rest))', carries='C03', label='well-formed-header'),
+                     call='self.end_section', carries='C03,C15,C17', label='empty-form-closes-the-section-it-opened')],
+         ensures=[Clause('sec_ok(hdr_text(rest))', carries='C03,C17', label='well-formed-header'),
                   Clause("implies(rest[-1:] == '/', result == section and self.stack == old(self.stack))",
-                         carries='C03,C15', label='empty-form-leaves-nesting-unchanged'),
+                         carries='C03,C15,C17', label='empty-form-leaves-nesting-unchanged'),
                   Clause("implies(rest[-1:] != '/', self.stack == old(self.stack) + "
                          "[(sec_type(hdr_text(rest)).lower(), lower_opt(sec_name(hdr_text(rest))), section)])",
-                         carries='C03', label='pushes-open-section')],
+                         carries='C03,C17', label='pushes-open-section')],
          raises=[Raise('ZConfig.ConfigurationError+', then=POS_CLOSE + [
              Clause('self.stack == old(self.stack)', label='stack-unchanged')], carries='C08', label='config-error')])
 
@@ -301,7 +301,7 @@ contract('cfgparser.ZConfigParser.parse',
                   At("line_class(val(line)) == K_OPEN and val(line)[-1] == '>' and args[0] == section and "
                      "args[1] == val(line)[1:-1]", call='self.start_section', carries='C03', label='opener-dispatch'),
                   At("line_class(val(line)) == K_DIRECTIVE and args[0] == section and args[1] == val(line)[1:]",
-                     call='self.handle_directive', carries='C03', label='directive-dispatch'),
+                     call='self.handle_directive', carries='C03,C06', label='directive-dispatch'),
                   At("line_class(val(line)) == K_KV and args[0] == section and args[1] == val(line)",
                      call='self.handle_key_value', carries='C03', label='keyvalue-dispatch')],
          ensures=[Clause('len(self.stack) == 0', carries='C03,C06', label='all-sections-closed'),
